@@ -944,7 +944,7 @@ pub fn c32_case(seed: u64) -> HCase {
     let mut ops = Vec::new();
     for _ in 0..n {
         let rel = rw.pick(&["r", "r", "s"]).to_string();
-        match rw.below(24) {
+        match rw.below(27) {
             0..=7 => {
                 let k = rw.range(1, 4) as usize;
                 let tuples: Vec<T> = (0..k).map(|_| t64(rw.range(0, 4) as i64, rw.range(0, 3) as i64)).collect();
@@ -1014,6 +1014,45 @@ pub fn c32_case(seed: u64) -> HCase {
                 let k = rw.range(2, 5) as usize;
                 let tuples: Vec<T> = (0..k).map(|_| t64(rw.range(0, 2) as i64, rw.range(0, 2) as i64)).collect();
                 ops.push(HOp::EngineDelete { kg: kg.clone(), rel, tuples });
+            }
+            24 => {
+                // relations of arity 1 and 3, small domains so that repeats and stored duplicates occur
+                let (rel, ar) = *rw.pick(&[("u", 1usize), ("w", 3usize)]);
+                let k = rw.range(1, 4) as usize;
+                let tuples: Vec<T> = (0..k).map(|_| (0..ar).map(|_| V::I64(rw.range(0, 2) as i64)).collect()).collect();
+                if rw.chance(1, 2) {
+                    ops.push(HOp::EngineInsert { kg: kg.clone(), rel: rel.into(), tuples });
+                } else {
+                    ops.push(HOp::Program { kg: kg.clone(), text: bulk_text(rel, &tuples), effect: Effect::Insert { rel: rel.into(), tuples } });
+                }
+            }
+            25 => {
+                let (rel, ar) = *rw.pick(&[("u", 1usize), ("w", 3usize)]);
+                let k = rw.range(1, 3) as usize;
+                let tuples: Vec<T> = (0..k).map(|_| (0..ar).map(|_| V::I64(rw.range(0, 2) as i64)).collect()).collect();
+                if rw.chance(1, 2) {
+                    ops.push(HOp::EngineDelete { kg: kg.clone(), rel: rel.into(), tuples });
+                } else {
+                    let text = if k == 1 { format!("-{rel}{}", tuple_lit(&tuples[0])) } else { format!("-{rel}[{}]", tuples.iter().map(tuple_lit).collect::<Vec<_>>().join(", ")) };
+                    ops.push(HOp::Program { kg: kg.clone(), text, effect: Effect::Delete { rel: rel.into(), tuples } });
+                }
+            }
+            26 => {
+                // the same tuple in another integer width is a different tuple (engine API only: statements parse integers as Int64)
+                let wide = rw.chance(1, 3);
+                let tuples: Vec<T> = (0..rw.range(1, 3))
+                    .map(|_| {
+                        let (a, b) = (rw.range(0, 2) as i32, rw.range(0, 2) as i32);
+                        if wide { vec![V::I64(a as i64), V::I64(b as i64)] } else { vec![V::I32(a), V::I32(b)] }
+                    })
+                    .collect();
+                // (own relations: how a statement's Int64 constants match Int32 columns is not this property's business)
+                let rel = rw.pick(&["n", "n", "r32"]).to_string();
+                if rw.chance(2, 3) {
+                    ops.push(HOp::EngineInsert { kg: kg.clone(), rel, tuples });
+                } else {
+                    ops.push(HOp::EngineDelete { kg: kg.clone(), rel, tuples });
+                }
             }
             _ => {
                 // bulk delete statement, tuples may repeat
